@@ -1140,13 +1140,32 @@ def i_SHRD(i, fmap):
     fmap[rip] = fmap[rip] + i.length
     op1 = i.operands[0]
     op2 = fmap(i.operands[1])
-    op3 = fmap(i.operands[2])
+    mask = 0x3F if op1.size == 64 else 0x1F
+    op3 = fmap(i.operands[2] & mask)
+    a = fmap(op1)
     if not op3._is_cst:
         x = top(op1.size)
+        fmap[cf] = top(1)
+        fmap[of] = top(1)
     else:
         n = op3.value
+        if n == 0:
+            # nothing changes, but the write to a 32-bits register
+            # still clears the upper half of the 64-bits register
+            op1, a = _r32_zx64(op1, a)
+            fmap[op1] = a
+            return
         r = op1.size - n
-        x = (fmap(op1) >> n) | (op2 << r)
+        if r < 0:  # count > size: result and flags are undefined
+            x = top(op1.size)
+            fmap[cf] = top(1)
+        else:
+            x = (a >> n) | (op2 << r)
+            fmap[cf] = a.bit(n - 1)
+        if n == 1:
+            fmap[of] = x.bit(-1) ^ a.bit(-1)
+        else:
+            fmap[of] = top(1)
     fmap[sf] = x.bit(-1)
     fmap[zf] = x == 0
     fmap[pf] = parity8(x[0:8])
@@ -1158,14 +1177,32 @@ def i_SHLD(i, fmap):
     fmap[rip] = fmap[rip] + i.length
     op1 = i.operands[0]
     op2 = fmap(i.operands[1])
-    op3 = fmap(i.operands[2])
+    mask = 0x3F if op1.size == 64 else 0x1F
+    op3 = fmap(i.operands[2] & mask)
+    a = fmap(op1)
     if not op3._is_cst:
         x = top(op1.size)
+        fmap[cf] = top(1)
+        fmap[of] = top(1)
     else:
         n = op3.value
+        if n == 0:
+            # nothing changes, but the write to a 32-bits register
+            # still clears the upper half of the 64-bits register
+            op1, a = _r32_zx64(op1, a)
+            fmap[op1] = a
+            return
         r = op1.size - n
-        x = (fmap(op1) << n) | (op2 >> r)
-    fmap[op1] = x
+        if r < 0:  # count > size: result and flags are undefined
+            x = top(op1.size)
+            fmap[cf] = top(1)
+        else:
+            x = (a << n) | (op2 >> r)
+            fmap[cf] = a.bit(r)
+        if n == 1:
+            fmap[of] = x.bit(-1) ^ a.bit(-1)
+        else:
+            fmap[of] = top(1)
     fmap[sf] = x.bit(-1)
     fmap[zf] = x == 0
     fmap[pf] = parity8(x[0:8])
